@@ -78,6 +78,13 @@ def configs(ctx):
     # a hub that is behind both of its neighbours (it can be fetching from both at once)
     C['hub-at-genesis-between-3-and-5'] = {'chains': [chain(3), chain(0), chain(5)], 'dials': [(1, 0), (1, 2)], 'small': False}
     C['hub-at-genesis-dialled'] = {'chains': [chain(3), chain(0), chain(5)], 'dials': [(0, 1), (2, 1)], 'small': False}
+    # the transaction of the last phase is ALSO broadcast once early, at any point of the schedule (one deviation), when
+    # some node is still behind and has to refuse it; it must nevertheless reach every pool when broadcast again later
+    for base in ('other-at-genesis:A-dials-B', 'ahead-by-3:B-dials-A', 'line-long-at-0', 'fork-depth-2-longer:A-dials-B'):
+        c = dict(C[base])
+        c['early_tx'] = True
+        c['small'] = False
+        C[base + '+early-tx'] = c
     # a node with a longer chain joins AFTER the others have converged among themselves (start from a non-initial
     # state: connections that have already carried a complete download, with whatever bookkeeping that left behind)
     C['late-joiner-deep-fork'] = {'chains': [A, B, Cc], 'dials': [(1, 2)], 'late_dials': [(0, 1)], 'small': False}
@@ -139,6 +146,16 @@ class Sim:
         self.choice_alts = []       # pending alternatives for random.choice inside the current tick
         self.choice_pick = 0
         self.dropped = []
+        self.the_tx = None
+        self.early_done = False
+        if cfg.get('early_tx'):
+            longest = max(cfg['chains'], key=len)
+            src = uni.get(longest[:1])
+            r = sorted(src.utxo.keys())[0]
+            v, pk = src.utxo[r]
+            key = [k for k in K if k.sk is not None and k.pub == pk][0]
+            self.the_tx = world.mk_tx([(world.oref(r), key)], [(v - 10, K[2])])
+            self.early_from = cfg['chains'].index(longest)
         self.held = set()          # sockets whose pending deliveries are postponed (a slow link) until nothing else is deliverable
         net.rnd.chooser = self._choose
 
@@ -197,6 +214,8 @@ class Sim:
             ev.append(('tick', i, 0))
             ev.append(('tick', i, 1))     # the same step, choosing the second fetch candidate (if there is more than one)
         ev += [('advance', 1), ('advance', 61)]
+        if self.the_tx is not None and not self.early_done and self.nodes[self.early_from].nm.get_active_peers():
+            ev.append(('early_tx',))
         return ev
 
     def default_event(self):
@@ -234,6 +253,12 @@ class Sim:
             self.in_handler = False
         elif kind == 'hold':
             self.held.add(ev[2])
+        elif kind == 'early_tx':
+            n = self.nodes[self.early_from]
+            self.net.current = n
+            n.nm.broadcast_transaction(self.the_tx)
+            n.flush()
+            self.early_done = True
         elif kind == 'accept':
             self.nodes[ev[1]].accept()
         elif kind == 'tick':
@@ -503,6 +528,13 @@ def continuation(sim, bad):
     v, pk = hd.utxo[r]
     key = [k for k in K if k.sk is not None and k.pub == pk][0]
     tx = world.mk_tx([(world.oref(r), key)], [(v - 10, K[2])])
+    if sim.the_tx is not None:
+        tx = sim.the_tx
+        # relays of the early broadcast do not count against the later one
+        for rc in sim.relays:
+            rc.pop(('tx', enc.txid(tx)), None)
+        if refmodel.validate_tx(tx, hd.utxo):
+            return
     sim.net.current = sim.nodes[0]
     sim.nodes[0].nm.broadcast_transaction(tx)
     sim.nodes[0].flush()
@@ -571,6 +603,8 @@ def _dev_worker(arg):
 
 
 def env_only(ev):
+    if ev == ('early_tx',):
+        return True
     """deviations that model the environment rather than a mere reordering of two enabled handlers: another fetch-peer
     choice, a slow link, a long pause"""
     return (ev[0] == 'tick' and ev[2] == 1) or ev[0] == 'hold' or ev == ('advance', 61)
